@@ -39,6 +39,8 @@ def scenarios(exe, seed, tier):
     if tier != "quick":
         shapes += [("compress", 14), ("compress", 3), ("decompress", 3), ("compress", 8), ("decompress", 9),
                    ("copy", 5), ("compress", 2), ("decompress", 2)]
+        for k in range(30):
+            shapes.append((["compress", "decompress", "copy"][k % 3], r.randrange(1, 41)))
     for i, (mode, chunks) in enumerate(shapes):
         n = [1, 2, 4, 16][(i + seed) % 4]
         if mode == "compress":
